@@ -218,6 +218,14 @@ class Unknown:
         return f"Unknown({self.why})"
 
 
+class UnknownInt(Unknown):
+    """Some integer (any value): result of forgetting an integer variable carried through a loop of unknown length."""
+    __slots__ = ()
+
+    def __repr__(self):
+        return f"UnknownInt({self.why})"
+
+
 class Obj:
     """Instance of a package class.  ``strval`` is set for str subclasses."""
 
